@@ -387,7 +387,7 @@ def _loop_scenarios(tier: str) -> list[Any]:
             out = []
             essential = [(t, p['name']) for t, k, p in env.obs if k == 'user' and p['name'].startswith(('spec', 'label', 'annotate'))]
             calls = [(t, p['id'], p.get('reason')) for t, k, p in env.obs if k == 'call' and p.get('reason') in ('create', 'update')
-                     and p['id'] in ('c1', 'u1')]
+                     and p['id'] in ('c1', 'u1') and p['outcome'].split(',')[0].split('~')[0] in ('ok', 'perm')]
             want = [('c1', 'create')] + [('u1', 'update')] * len(essential)
             got = [(i, r) for _, i, r in calls]
             if got != want:
@@ -438,6 +438,12 @@ def _loop_scenarios(tier: str) -> list[Any]:
                                                dict(id='fs', on='update', field='spec', script=['ok'])]
                         out.append(C04Loop(handlers=narrowed, user=user + [(user[-1][0] + 5, 'annotate', 'a', 'user/second', 'y')],
                                            horizon=6.0 + 5 * len(ed) + 35, bare=bare, storage=storage, sub=sub, narrowed=True, lifecycle='all_at_once',
+                                           settings={'persistence__consistency_timeout': 5.0}, delays=False, early_user=False, time_dev=False))
+                        # ... and in cycles of several steps (one handler per step, one of them retrying): the other handlers' progress
+                        # records are on the object while a narrowed handler is given its old/new/diff
+                        slow = [dict(h, script=['temp1', 'ok']) if h['id'] == 'u1' else h for h in narrowed]
+                        out.append(C04Loop(handlers=slow, user=user + [(user[-1][0] + 8, 'annotate', 'a', 'user/second', 'y')],
+                                           horizon=6.0 + 5 * len(ed) + 45, bare=bare, storage=storage, sub=sub, narrowed=True, lifecycle='asap', multistep=True,
                                            settings={'persistence__consistency_timeout': 5.0}, delays=False, early_user=False, time_dev=False))
                     out.append(C04Loop(handlers=handlers, user=user, horizon=6.0 + 5 * len(ed) + 25, bare=bare, storage=storage, sub=sub,
                                        settings={'persistence__consistency_timeout': 5.0}, delays=False, early_user=False, time_dev=False))
